@@ -522,10 +522,11 @@ def opPick (s : St) (call pn : Nat) (m : String) (ctx : CtxKind) (dl : Option In
 
 /-! ### completion callback -/
 
-/-- unresponsiveWindow in nanoseconds: `time.Millisecond * Duration(uint32(1 << cnt) * ms)` -/
+/-- unresponsiveWindow in nanoseconds: `ms * 2^cnt` milliseconds, saturating at MaxInt64 ns -/
 def windowNs (c : Cfg) (refreshCnt : Nat) : Int :=
-  let factor := (2 ^ refreshCnt) % 2^32
-  (((factor * c.ums) % 2^32 : Nat) : Int) * 1000000
+  let maxMs : Nat := (2^63 - 1) / 1000000
+  if refreshCnt ≥ 63 || c.ums > maxMs / 2^refreshCnt then (2^63 - 1 : Int)
+  else ((c.ums * 2^refreshCnt : Nat) : Int) * 1000000
 
 /-- the completion counts as a response from the server -/
 def isResponse (s : St) (err : ErrKind) (dl : Option Int) : Bool :=
